@@ -403,6 +403,7 @@ def runValidators (a : CaseAcc) : List String :=
     s!"v5 unjustified {idsOrDash (unjustifiedSplit ch).1}",
     s!"v5 unjustified_f5 {idsOrDash (unjustifiedSplit ch).2}",
     s!"v5 mustconsume {idsOrDash (mustConsumeOKB ch)}",
+    s!"v5 mctaken {idsOrDash (mustConsumeTakenB ch)}",
     s!"v5 loose {idsOrDash (looseOKB ch)}",
     s!"v5 loose_f5 {idsOrDash (looseF5B ch)}" ]
 
